@@ -156,6 +156,11 @@ func snapshot(m *model) map[string]*answer {
 
 // judge compares one answer with the reference and reports a classified violation.
 func (k *checker) judge(prefix string, h *history, step int, ip string, got, want *answer, it *ipTrack, trace []string) bool {
+	return k.judgeSig(prefix, nil, h, step, ip, got, want, it, trace)
+}
+
+// judgeSig is judge with a decorator for the failure kind (to name the configuration class in the sig).
+func (k *checker) judgeSig(prefix string, deco func(kind string) string, h *history, step int, ip string, got, want *answer, it *ipTrack, trace []string) bool {
 	if sameAnswer(got, want) {
 		return true
 	}
@@ -180,6 +185,9 @@ func (k *checker) judge(prefix string, h *history, step int, ip string, got, wan
 	default:
 		sig = "wrong-tags"
 	}
+	if deco != nil {
+		sig = deco(sig)
+	}
 	k.r.Violation(prefix+":"+sig,
 		fmt.Sprintf("label regex %q, annotation regex %q; after step %d lookup of %s answered %v, expected %v\nhistory:\n  %s", h.LabelRe, h.AnnRe, step, ip, got, want, strings.Join(trace, "\n  ")),
 		h)
@@ -192,10 +200,10 @@ func compile(h *history) *config {
 
 // runSeq: sequential history with lookups after every step (modes a and b).
 func (k *checker) caseLine(h *history, no int) {
-	if h.Engine == "direct" && h.Mode == "seq" {
+	if h.Engine == "direct" && (h.Mode == "seq" || h.Mode == "consume") {
 		// sequential direct-drive cases run on this goroutine only: a panic is caught by Guard with the
 		// whole history as witness, so the write-ahead line stays short
-		k.r.Case("seq-direct #%d label=%q annotation=%q ops=%d", no, h.LabelRe, h.AnnRe, len(h.Ops))
+		k.r.Case("%s-direct #%d label=%q annotation=%q ops=%d", h.Mode, no, h.LabelRe, h.AnnRe, len(h.Ops))
 		return
 	}
 	b, _ := json.Marshal(h)
@@ -219,6 +227,14 @@ func (k *checker) runSeq(h *history, no int) {
 	tr := newTracker()
 	prefix := "seq-" + h.Engine
 	var trace []string
+	if h.Pipe != nil {
+		prefix = "consume-" + h.Engine
+		if e.pipe, err = newPipeline(e.p, h.Pipe); err != nil {
+			k.r.Inconclusive("pipeline-config-unreadable")
+			return
+		}
+		trace = append(trace, "consumers: CloudHandler -> TagHandler(static tags "+fmt.Sprintf("%q", h.Pipe.Static)+", filters: "+strings.ReplaceAll(strings.TrimSpace(h.Pipe.Text), "\n", " ; ")+") -> sink keyed by FormatTagsKey")
+	}
 	ok := true
 	nLook := 0
 	for i := range h.Ops {
@@ -252,6 +268,32 @@ func (k *checker) runSeq(h *history, no int) {
 				}
 				tr.looked(l.IP, want)
 			}
+			if ok && l.Consume != nil && e.pipe != nil {
+				// hand the answer to its real consumers, then the IP must still answer for the model
+				e.pipe.feed(l.IP, l.Consume)
+				own := "untagged"
+				if len(l.Consume.Tags) > 0 {
+					own = "tagged"
+				}
+				k.r.Event("consumed_"+own+"_"+l.Consume.Kind, 1)
+				trace = append(trace, fmt.Sprintf("   %s %s from %s with own tags %q through the consumers", own, l.Consume.Kind, l.IP, l.Consume.Tags))
+				got, err := e.peek(l.IP, false)
+				if err != nil {
+					k.r.Violation(prefix+":lookup-failed", err.Error(), h)
+					return
+				}
+				nLook++
+				trace = append(trace, fmt.Sprintf("   Peek(%s) = %v", l.IP, got))
+				deco := func(kind string) string {
+					return "answer-changed-after-consumers:" + own + "-" + l.Consume.Kind + ":" + kind
+				}
+				if !k.judgeSig(prefix, deco, h, i, l.IP, got, want, nil, trace) {
+					ok = false
+				}
+				if want != nil {
+					k.r.Nontrivial(fmt.Sprintf("consume|%s|%s|%s|filters=%d|static=%d|answer-tags=%d", h.Engine, own, l.Consume.Kind, strings.Count(h.Pipe.Text, "[filter."), len(h.Pipe.Static), minInt(len(want.Tags), 3)))
+				}
+			}
 			if !ok {
 				break
 			}
@@ -262,6 +304,9 @@ func (k *checker) runSeq(h *history, no int) {
 	}
 	k.r.Eval(1)
 	k.r.Event("lookups", nLook)
+	if e.pipe != nil {
+		k.r.Event("items_reaching_sink", e.pipe.sink.items)
+	}
 	classes := tr.nontrivial(h.Engine)
 	for _, c := range classes {
 		k.r.Nontrivial(c)
@@ -561,6 +606,13 @@ func (k *checker) runConcurrent(h *history, caseNo int) {
 	}
 }
 
+func minInt(a, b int) int {
+	if a < b {
+		return a
+	}
+	return b
+}
+
 func (k *checker) selfTest(t *testing.T) {
 	for _, c := range refSelfTest {
 		got, ok := refTagName(regexp.MustCompile(c.re), c.key)
@@ -578,8 +630,8 @@ func (k *checker) selfTest(t *testing.T) {
 func TestCheck(t *testing.T) {
 	r := mon.Start(t, "C13")
 	defer r.Finish()
-	r.Rule("cases: (a) direct-drive histories of 12-25 add/update/delete events over 5 pod identities (3 namespaces) and 3 IPs applied to the real provider's indexer then its invalidation handler (deletes sometimes as tombstones): phases Pending/Running/Succeeded/Failed, deletion timestamp, hostNetwork, hostIP==podIP, IP set/unset/changed/re-used by another pod only after the previous holder stopped holding it, label/annotation add/remove/rename/change; 12 label x 12 annotation regexes (or disabled) with/without the named group, with other groups, with groups matching empty text; after every step 1-2 Peek lookups of most IPs (plus unknown/host IPs). (b) the same through a fake clientset and the provider's own informer (Provider.Run), each API call followed by waiting for the k8s.on* hook; lookups via Peek and via IpSink/InfoSource. (c) forced interleaving: a lookup parked at k8s.beforeMemoStore while the holder is updated/deleted/finishes/moves/is replaced, then released, then later lookups. (d) three goroutines looking up while events are applied, judged against the window of states between call and return. Non-trivial: a history in which an IP is re-used by a second pod, or a holder leaves while its answer is memoised (a/b); every forced case; concurrent cases whose answer for an IP changes at least twice. Distinct by (engine, per-IP pattern of gain/edit/loss-with-reason/re-use events, first 8), by (engine, variant) for forced, by (engine, number of changes, overlap seen) for concurrent.")
-	r.Assume("Go regexp (FindStringSubmatchIndex/SubexpIndex) as the definition of 'matches' and of the text of group 'tag' (validated against hand-derived expectations at start-up); client-go's store/informer and the fake clientset deliver exactly one handler call per API call")
+	r.Rule("cases: (a) direct-drive histories of 12-25 add/update/delete events over 5 pod identities (3 namespaces) and 3 IPs applied to the real provider's indexer then its invalidation handler (deletes sometimes as tombstones): phases Pending/Running/Succeeded/Failed, deletion timestamp, hostNetwork, hostIP==podIP, IP set/unset/changed/re-used by another pod only after the previous holder stopped holding it, label/annotation add/remove/rename/change; 12 label x 12 annotation regexes (or disabled) with/without the named group, with other groups, with groups matching empty text; after every step 1-2 Peek lookups of most IPs (plus unknown/host IPs). (b) the same through a fake clientset and the provider's own informer (Provider.Run), each API call followed by waiting for the k8s.on* hook; lookups via Peek and via IpSink/InfoSource. (c) forced interleaving: a lookup parked at k8s.beforeMemoStore while the holder is updated/deleted/finishes/moves/is replaced, then released, then later lookups. (d) three goroutines looking up while events are applied, judged against the window of states between call and return. (e) consumers: histories as in (a)/(b) in which most lookups are followed by a counter/gauge/timer/set/event from that IP, untagged (nil or empty tag slice) or with 1-3 own tags, travelling through the real CloudHandler -> TagHandler built by NewTagHandlerFromViper from random filter configuration text (0-2 filters with drop-tags/match-tags/match-metrics/drop-host/drop-metric patterns drawn from the tags the reference expects in that history, 0-2 static tags) -> a sink keying by FormatTagsKey; the IP is then looked up again and must still answer for the reference. (f) configuration: the provider is built by k8s.NewProviderFromViper from random TOML/YAML text (annotation-tag-regex and label-tag-regex absent / empty / custom, watch-cluster absent/true/false x node-name absent/empty/node1/node2, resync-period, kube-api-qps/burst, user-agent, kubeconfig-path and optionally kubeconfig-context) against a scripted HTTP API server that serves list+watch of pods with resource versions and honours the fieldSelector; 0-5 events happen before start-up (initial list), 6-15 in total, pods live on 3 nodes; lookups via Peek and IpSink are compared with the reference parameterised by the documented meaning of the keys. Non-trivial: a history in which an IP is re-used by a second pod, or a holder leaves while its answer is memoised (a/b); every forced case; concurrent cases whose answer for an IP changes at least twice. every consumed item whose IP has a holder (e), distinct by (engine, untagged/tagged, item kind, number of filters, static tags, size of the answer); every configuration case (f), distinct by (format, regex key classes, watch-cluster/node-name classes, list used, holder on another node seen, holder hidden by the node filter seen). Distinct by (engine, per-IP pattern of gain/edit/loss-with-reason/re-use events, first 8), by (engine, variant) for forced, by (engine, number of changes, overlap seen) for concurrent.")
+	r.Assume("Go regexp (FindStringSubmatchIndex/SubexpIndex) as the definition of 'matches' and of the text of group 'tag' (validated against hand-derived expectations at start-up); client-go's store/informer and the fake clientset deliver exactly one handler call per API call; the scripted API server's field-selector semantics (fields.ParseSelector over the pod field labels the real server supports); CLOUDPROVIDERS.md and the parameter comments in k8s.go as the meaning of the [k8s] keys")
 	k := &checker{r: r}
 	k.selfTest(t)
 
@@ -593,6 +645,10 @@ func TestCheck(t *testing.T) {
 			n = 50
 		}
 		for i := 0; i < n; i++ {
+			if h.Engine == "config" {
+				k.guarded(h, func() { k.runConfig(h, i) })
+				continue
+			}
 			switch h.Mode {
 			case "forced":
 				k.guarded(h, func() { k.runForced(h) })
@@ -627,6 +683,20 @@ func TestCheck(t *testing.T) {
 	for i := 0; i < nInformer && r.Violations() < 20; i++ {
 		h := genSeq(rng, "informer", 14)
 		k.guarded(h, func() { k.runSeq(h, i) })
+	}
+	nConsume := r.N(1200, 120000)
+	for i := 0; i < nConsume && r.Violations() < 28; i++ {
+		engine := "direct"
+		if i%16 == 15 {
+			engine = "informer"
+		}
+		h := genConsume(rng, engine)
+		k.guarded(h, func() { k.runSeq(h, i) })
+	}
+	nConfig := r.N(240, 12000)
+	for i := 0; i < nConfig && r.Violations() < 32; i++ {
+		h := genConfig(rng)
+		k.guarded(h, func() { k.runConfig(h, i) })
 	}
 	for i := 0; i < nConc && r.Violations() < 24; i++ {
 		engine := "direct"
